@@ -179,6 +179,10 @@ func (b *bgen) bschema(from string, depth int, refP float64) M {
 	case "array":
 		s["type"] = "array"
 		s["items"] = b.bschema(from, depth-1, refP)
+		if b.p(0.12) {
+			delete(s, "type") // an array written without its type: `items` is still a schema position
+			b.hit("schema:untyped-array")
+		}
 		if b.p(0.15) {
 			// additionalItems beside a single items schema (no tuple): still a schema position
 			s["additionalItems"] = b.leafOrRef(from, refP)
@@ -804,6 +808,29 @@ func (b *bgen) injectScenario(name string, rootDefs, paths M, aux map[string]M, 
 			paths["/scn/chain2"] = M{"get": resp(M{"$ref": "#/parameters/chainP/schema"})}
 		}
 		g.hit("scenario:pointer-chain-sections")
+	case "cycle-collide-simple":
+		// a recursive definition of an auxiliary document (its cycle survives Expand) that uses, several times, a simple
+		// $ref-free sibling whose name collides with a root definition
+		if len(b.auxPaths) == 0 {
+			return
+		}
+		ap := b.auxPaths[0]
+		kn := g.pick([]string{"kind", "k/ind", "my kind"})
+		var simple M
+		switch g.n(3) {
+		case 0:
+			simple = M{"type": "string", "enum": []any{"a", "b"}}
+		case 1:
+			simple = M{"type": "array", "items": M{"type": "string"}}
+		default:
+			simple = M{"type": "object", "additionalProperties": M{"type": "integer"}}
+		}
+		local := func(n string) M { return M{"$ref": "#/definitions/" + jsonPtrEscape(n)} }
+		aux[ap]["definitions"].(M)[kn] = simple
+		aux[ap]["definitions"].(M)["cycNode"] = M{"type": "object", "properties": M{"next": local("cycNode"), "kind": local(kn), "other": local(kn)}}
+		rootDefs[kn] = M{"type": "object", "properties": M{"rootKind": M{"type": "boolean"}}}
+		paths["/scn/cyc"] = M{"get": resp(M{"$ref": relRef("", ap) + "#/definitions/cycNode"}), "put": resp(M{"$ref": "#/definitions/" + jsonPtrEscape(kn)})}
+		g.hit("scenario:cycle-collide-simple")
 	case "hash-twins":
 		// two $ref-free definitions of one auxiliary document whose names agree up to a '#', both referred to
 		if len(b.auxPaths) == 0 {
@@ -1121,6 +1148,13 @@ func (b *bgen) injectPlus(rootDefs, paths M, aux map[string]M) (mustFail bool, w
 			if g.p(0.3) {
 				rootDefs["plusChainB"].(M)["properties"].(M)["q"] = M{"$ref": "#/definitions/plusChainA/properties/p"} // a cycle of pointers
 				what = append(what, "pointer-cycle")
+				if g.p(0.6) {
+					// … entered from outside: a chain of pointers that leads into the cycle without being on it
+					rootDefs["plusChainC"] = M{"type": "object", "properties": M{"r": M{"$ref": "#/definitions/plusChainA/properties/p"}, "s": M{"$ref": "#/definitions/plusChainC/properties/r"}}}
+					addPath(M{"$ref": "#/definitions/plusChainC/properties/s"})
+					addPath(M{"type": "array", "items": M{"$ref": "#/definitions/plusChainC/properties/r"}})
+					what = append(what, "pointer-lasso")
+				}
 			}
 			what = append(what, "pointer-in-pointer-target")
 		default:
